@@ -1,0 +1,46 @@
+//go:build verif
+
+package pipes
+
+// Contracts for the goverif VC generator (/verif). Comment-only file: it adds no code.
+
+// ---- C26 / C19 / C32: the named-pipe registry -------------------------------------------------------
+//
+// `pipes` is only touched under `mutex`; every Lock may find ANY registry other goroutines left
+// (closePipe runs 2 s after Close: the entry it is about may be gone by then).
+// Guarantee of every critical section: a live entry (Pipe != nil) is never overwritten, only
+// removed - this is "names are unique among live pipes".
+
+//@ type Named guarded_by mutex: pipes
+//@ type Named guarantee self.pipes == old(self.pipes)
+//@ type Named guarantee forallkey(k, self.pipes, imp(old(has(self.pipes, k) && self.pipes[k].Pipe != nil), self.pipes[k].Pipe == old(self.pipes[k].Pipe)))
+
+//@ func (*Named).CreatePipe [C26 C19 C32]
+//@   requires n != nil && n.pipes != nil
+//@   ensures imp(old@lock1(n.pipes[name].Pipe) != nil, result != nil)
+//@   ensures imp(result == nil, n.pipes[name].Pipe != nil && n.pipes[name].Type == pipeType)
+
+//@ func (*Named).ExposePipe [C26 C19 C32]
+//@   requires n != nil && n.pipes != nil
+//@   ensures imp(old@lock1(n.pipes[name].Pipe) != nil, result != nil)
+//@   ensures imp(result == nil, n.pipes[name].Pipe == io && n.pipes[name].Type == pipeType)
+
+//@ func (*Named).Close [C26 C19 C32]
+//@   requires n != nil && n.pipes != nil
+//@   ensures imp(old@lock1(n.pipes[name].Pipe) == nil || name == "null", result != nil)
+
+//@ func closePipe [C26 C19 C32]
+//@   requires n != nil && n.pipes != nil
+
+//@ func (*Named).Delete [C26 C19 C32]
+//@   requires n != nil && n.pipes != nil
+//@   ensures imp(old@lock1(n.pipes[name].Pipe) == nil || name == "null", result != nil)
+//@   ensures imp(result == nil, !has(n.pipes, name))
+
+//@ func (*Named).Get [C26 C19 C32]
+//@   requires n != nil && n.pipes != nil
+//@   ensures imp(result1 == nil, result != nil)
+//@   ensures imp(result1 != nil, result == nil)
+
+//@ func (*Named).Dump [C26 C19 C32]
+//@   requires n != nil && n.pipes != nil
